@@ -95,6 +95,26 @@ func c0102(rep *ev.Reporter, tier string, judge func(c *Case, tr *hx.Trace, w *r
 	gen := func(emit func(Case)) {
 		depMatrix(nShapes, maxCycle, emit)
 		general2(tier, maxCycle, emit)
+		// the same dependency matrix on knowledge bases that went through binary store + load (the
+		// loader, not the builder, rebuilds the variable index there); quick: every 3rd cell
+		n := 0
+		depMatrix(nShapes, maxCycle, func(c Case) {
+			n++
+			if tier == "quick" && n%3 != 0 {
+				return
+			}
+			c.ID = "reloaded/" + c.ID
+			c.Reloaded = true
+			if c.Meta != nil {
+				m := map[string]string{}
+				for k, v := range c.Meta {
+					m[k] = v
+				}
+				m["loc"] = "reloaded-" + m["loc"]
+				c.Meta = m
+			}
+			emit(c)
+		})
 	}
 	RunFamily(rep, gen, 3000, bud, judge)
 	rep.Assumptions = append(rep.Assumptions,
@@ -105,7 +125,7 @@ func c0102(rep *ev.Reporter, tier string, judge func(c *Case, tr *hx.Trace, w *r
 
 func C01(rep *ev.Reporter, tier string) {
 	c0102(rep, tier, judgeC01)
-	rep.Coverage["rule"] = "dependency matrix: every (writer rule, reader rule) pair over 9 locations x every pair of syntactic paths denoting the location x 6 assignment forms (+Forget/Changed, pointer swap, container reads) x read shapes x direction of the flip x 3 salience relations, plus all 2-rule sets over a general condition/action alphabet; every rule order at every cycle, state-pruned. Oracle at every ExecuteRuleEntry: the reference evaluator run from scratch on the live facts says the fired rule's condition is true and the rule is active. Non-trivial: a firing in cycle >=2 (remembered values in play)."
+	rep.Coverage["rule"] = "dependency matrix: every (writer rule, reader rule) pair over 9 locations x every pair of syntactic paths denoting the location x 6 assignment forms (+Forget/Changed, pointer swap, container reads) x read shapes x direction of the flip x 3 salience relations, plus all 2-rule sets over a general condition/action alphabet, plus the matrix again on knowledge bases obtained by binary store + load; every rule order at every cycle, state-pruned. Oracle at every ExecuteRuleEntry: the reference evaluator run from scratch on the live facts says the fired rule's condition is true and the rule is active. Non-trivial: a firing in cycle >=2 (remembered values in play)."
 }
 
 func C02(rep *ev.Reporter, tier string) {
